@@ -64,9 +64,7 @@ Theorem C08_same_bytes_string : forall r : reader,
   fst (get_string false r) = fst (skip_string false r) /\
   (forall s, snd (get_string false r) = MOk s ->
              snd (skip_string_marker false r) = MOk (bytes_eqb s secret_marker)).
-Proof.
-  intro r. destruct (plain_string_same r) as (A & B & _ & _ & E). auto.
-Qed.
+Proof. exact plain_string_three. Qed.
 Print Assumptions C08_same_bytes_string.
 
 (* the old-ClassAd fallback never invents a string out of an expression: it refuses any
